@@ -27,6 +27,31 @@ from basyx.aas import model
 logger = logging.getLogger(__name__)
 
 
+def _write_document(file_name: str, obj: model.Referable) -> None:
+    """
+    Write the JSON document of an object to ``file_name``, replacing a previous version of the document atomically
+
+    The object is serialized completely before the file system is touched. The document is then written to a temporary
+    file in the same directory, which is finally moved to ``file_name`` via :func:`os.replace`. Thus, if the
+    serialization fails, the file system reports an error or the process dies while writing, the document still holds
+    its previous version (resp. still does not exist) instead of a truncated JSON document.
+
+    :raises OSError: If the file could not be written. The temporary file is removed in this case.
+    """
+    data = json.dumps({"data": obj}, cls=json_serialization.AASToJsonEncoder, indent=4)
+    tmp_name = "{}.{}-{}.tmp".format(file_name, os.getpid(), threading.get_ident())
+    try:
+        with open(tmp_name, "w") as file:
+            file.write(data)
+        os.replace(tmp_name, file_name)
+    except BaseException:
+        try:
+            os.remove(tmp_name)
+        except OSError:
+            pass
+        raise
+
+
 class LocalFileBackend(backends.Backend):
     """
     This Backend stores each Identifiable object as a single JSON document as a local file in a directory.
@@ -59,8 +84,7 @@ class LocalFileBackend(backends.Backend):
             raise FileBackendSourceError("The given store_object is not Identifiable, therefore cannot be found "
                                          "in the FileBackend")
         file_name: str = store_object.source.replace("file://localhost/", "")
-        with open(file_name, "w") as file:
-            json.dump({'data': store_object}, file, cls=json_serialization.AASToJsonEncoder, indent=4)
+        _write_document(file_name, store_object)
 
 
 backends.register_backend("file", LocalFileBackend)
@@ -146,13 +170,13 @@ class LocalFileObjectStore(model.AbstractObjectStore):
         :raises KeyError: If an object with the same id exists already in the object store
         """
         logger.debug("Adding object %s to Local File Store ...", repr(x))
-        if os.path.exists("{}/{}.json".format(self.directory_path, self._transform_id(x.id))):
+        file_name = "{}/{}.json".format(self.directory_path, self._transform_id(x.id))
+        if os.path.exists(file_name):
             raise KeyError("Identifiable with id {} already exists in local file database".format(x.id))
-        with open("{}/{}.json".format(self.directory_path, self._transform_id(x.id)), "w") as file:
-            json.dump({"data": x}, file, cls=json_serialization.AASToJsonEncoder, indent=4)
-            with self._object_cache_lock:
-                self._object_cache[x.id] = x
-            self.generate_source(x)  # Set the source of the object
+        _write_document(file_name, x)
+        with self._object_cache_lock:
+            self._object_cache[x.id] = x
+        self.generate_source(x)  # Set the source of the object
 
     def discard(self, x: model.Identifiable) -> None:
         """
